@@ -1,12 +1,13 @@
 """C15 — exported polygons and lines correspond one-to-one with faces.
 
-Lean side (Props/C15.lean, model Model/Polys.lean): for ALL grids / data / policies — `antimeridian_iff`
-(the test on the padded closed shell = "some boundary segment spans >= 180 deg"), `exclude_map`,
-`nan_filter_compose`, `split_map`, `ignore_map`: the NumPy index gymnastics of the exporters (np.delete by
-index list, np.where(mask)[0] on the reduced array, fancy indexing, corrected_to_original_faces) equal the plain
-"faces that do not cross / are not NaN, in order, each with its own value"; for ALL histories of conversions —
-`export_history_free_partial`, `returned_geometry_stable`, `returned_object_stable_partial`,
-`export_meets_spec_after_any_history_partial`; and proved counterexamples for what the code gets wrong.
+Lean side (Props/C15.lean, model Model/Polys.lean with repair switches `Polys.Repairs`): for ALL grids / data /
+policies — `antimeridian_iff` (the test on the padded closed shell = "some boundary segment spans >= 180 deg"),
+`exclude_map`, `nan_filter_compose`, `split_map`, `ignore_map`, `ignore_map_projection`: the NumPy index gymnastics of
+the exporters (np.delete by index list, np.where(mask)[0] on the reduced array, fancy indexing,
+corrected_to_original_faces) equal the plain "faces that do not cross / are not NaN, in order, each with its own value";
+for ALL histories of conversions, at full strength for the code with the proposed patches — `export_history_free`,
+`returned_object_stable`, `returned_geometry_stable`, `export_meets_spec_after_any_history`; and proved
+counterexamples (`asis_*`) for the code without them.
 
 Tie (differential, labelled as such).  Every conversion is made on the REAL code through the public API
 (Grid.to_geodataframe / to_polycollection / to_linecollection / antimeridian_face_indices,
@@ -16,8 +17,8 @@ mesh's own corner coordinates (float32 tolerance) — the only float step — an
 is the Lean predicate `Polys.Spec` evaluated by the driver.  The same history is run through the Lean state
 machine and compared step by step; every step is also compared with the same conversion on a brand-new grid
 (history independence on the real code); every returned object is snapshotted when handed out and
-re-inspected at the end (returned objects not altered).  `split` pieces are judged by a shapely oracle
-(no piece edge spans >= 180 deg, pieces tile the face).
+re-inspected at the end (returned objects not altered).  `split` pieces are judged by a hard oracle on every
+exporter (no ring keeps a segment spanning >= 180 deg, the pieces' spherical areas add up to the face's).
 """
 
 from __future__ import annotations
